@@ -419,11 +419,38 @@ func (a *analysis) relFile(f string) string {
 }
 
 type walker struct {
-	a     *analysis
-	p     *pkgInfo
-	fn    string // enclosing function for reporting
-	init  bool   // executes during package initialisation
-	stack []ast.Node
+	a        *analysis
+	p        *pkgInfo
+	fn       string // enclosing function for reporting
+	init     bool   // executes during package initialisation
+	fromInit bool   // the code is, or is a function literal created by, initialisation code
+	lits     []*ast.FuncLit
+	stack    []ast.Node
+}
+
+// capturedVar: inside a function literal that initialisation code created (the
+// value of a package-level func variable, a callback stored in a table, an
+// immediately-invoked builder), a local variable declared outside the innermost
+// literal lives as long as the process does and is shared by all runtimes.
+func (w *walker) capturedVar(id *ast.Ident) *types.Var {
+	if !w.fromInit || len(w.lits) == 0 {
+		return nil
+	}
+	o, ok := w.p.info.Uses[id].(*types.Var)
+	if !ok || o.IsField() || o.Pkg() == nil || o.Parent() == nil || o.Parent() == o.Pkg().Scope() {
+		return nil
+	}
+	in := w.lits[len(w.lits)-1]
+	if o.Pos() >= in.Pos() && o.Pos() < in.End() {
+		return nil
+	}
+	if _, ok := w.a.vars[o]; !ok {
+		pos := w.a.l.fset.Position(o.Pos())
+		w.a.vars[o] = &varEntry{name: fmt.Sprintf("%s.<captured %s in %s>", short(o.Pkg()), o.Name(), strings.TrimSuffix(strings.TrimPrefix(w.fn, short(o.Pkg())+"."), ".func")),
+			typ: typeStr(o.Type()), ref: carriesRef(o.Type(), 0), file: w.a.relFile(pos.Filename), line: pos.Line}
+		w.a.vorder = append(w.a.vorder, o)
+	}
+	return o
 }
 
 func (w *walker) at(n ast.Node) (string, int) {
@@ -479,7 +506,11 @@ func (w *walker) storeTo(e ast.Expr, kind, detail string, n ast.Node) {
 			e = x.X
 			continue
 		case *ast.Ident:
-			if v := w.pkgVar(x); v != nil {
+			v := w.pkgVar(x)
+			if v == nil {
+				v = w.capturedVar(x)
+			}
+			if v != nil {
 				k := kind
 				if !outer {
 					k = "KElem"
@@ -633,6 +664,7 @@ func (w *walker) visit(n ast.Node) bool {
 				}
 			}
 		}
+		w.externalArgs(x)
 		if sel, ok := x.Fun.(*ast.SelectorExpr); ok {
 			if s, ok := w.p.info.Selections[sel]; ok && s.Kind() == types.MethodVal {
 				fn, _ := s.Obj().(*types.Func)
@@ -671,6 +703,48 @@ func (w *walker) visit(n ast.Node) bool {
 		}
 	}
 	return true
+}
+
+// externalArgs: a slice/map/pointer held in a struct field and handed to a
+// function outside the six packages (sort.Strings(node.varList), ...) may be
+// modified in place by it; the store is invisible in the source text of the
+// tree, so the hand-over itself is reported as an escape of the field.
+func (w *walker) externalArgs(c *ast.CallExpr) {
+	var callee types.Object
+	switch f := c.Fun.(type) {
+	case *ast.SelectorExpr:
+		if s, ok := w.p.info.Selections[f]; ok {
+			callee = s.Obj()
+		} else {
+			callee = w.p.info.Uses[f.Sel]
+		}
+	case *ast.Ident:
+		callee = w.p.info.Uses[f]
+	}
+	fn, ok := callee.(*types.Func)
+	if !ok || fn.Pkg() == nil || w.a.tracked[fn.Pkg()] {
+		return
+	}
+	name := calleeName(w, c)
+	if name == "call" || !strings.Contains(name, ".") {
+		name = fn.Pkg().Name() + "." + fn.Name()
+	}
+	for _, arg := range c.Args {
+		e := unparen(arg)
+		if sl, ok := e.(*ast.SliceExpr); ok {
+			e = unparen(sl.X)
+		}
+		sel, ok := e.(*ast.SelectorExpr)
+		if !ok {
+			continue
+		}
+		f := w.fieldOf(sel)
+		if f == nil || !aliasKind(f.Type()) {
+			continue
+		}
+		ent := w.a.fields[f]
+		ent.sites = append(ent.sites, w.mk("KEscape", c, "argument of "+name))
+	}
 }
 
 func unparen(e ast.Expr) ast.Expr {
@@ -802,15 +876,21 @@ func (w *walker) escapeVar(v *types.Var, n ast.Expr) {
 func (w *walker) walk(n ast.Node) {
 	ast.Inspect(n, func(c ast.Node) bool {
 		if c == nil {
+			if fl, ok := w.stack[len(w.stack)-1].(*ast.FuncLit); ok && len(w.lits) > 0 && w.lits[len(w.lits)-1] == fl {
+				w.lits = w.lits[:len(w.lits)-1]
+			}
 			w.stack = w.stack[:len(w.stack)-1]
 			return true
 		}
 		if fl, ok := c.(*ast.FuncLit); ok && w.init {
 			// a function literal created during initialisation runs whenever it is called
-			w2 := &walker{a: w.a, p: w.p, fn: w.fn + ".func", init: false, stack: append([]ast.Node{}, w.stack...)}
+			w2 := &walker{a: w.a, p: w.p, fn: w.fn + ".func", init: false, fromInit: true, lits: []*ast.FuncLit{fl}, stack: append([]ast.Node{}, w.stack...)}
 			w2.stack = append(w2.stack, fl)
 			w2.walk(fl.Body)
 			return false
+		}
+		if fl, ok := c.(*ast.FuncLit); ok {
+			w.lits = append(w.lits, fl)
 		}
 		cont := w.visit(c)
 		if !cont {
@@ -855,7 +935,7 @@ func (a *analysis) run() {
 						continue
 					}
 					isInit := d.Recv == nil && d.Name.Name == "init"
-					w := &walker{a: a, p: p, fn: funcName(p.pkg, d), init: isInit}
+					w := &walker{a: a, p: p, fn: funcName(p.pkg, d), init: isInit, fromInit: isInit}
 					w.stack = []ast.Node{d}
 					w.walk(d.Body)
 				case *ast.GenDecl:
@@ -868,7 +948,7 @@ func (a *analysis) run() {
 						for _, n := range vs.Names {
 							names = append(names, n.Name)
 						}
-						w := &walker{a: a, p: p, fn: short(p.pkg) + ".<decl " + strings.Join(names, ",") + ">", init: true}
+						w := &walker{a: a, p: p, fn: short(p.pkg) + ".<decl " + strings.Join(names, ",") + ">", init: true, fromInit: true}
 						for _, v := range vs.Values {
 							w.stack = []ast.Node{vs}
 							w.walk(v)
